@@ -262,11 +262,27 @@ def gen_schema(rng, sw):
         leaf = len(schema) - 1
         schema.append({"k": "ref", "to": leaf})
         rl = len(schema) - 1
-        schema.append({"k": "struct", "name": f"M{c}", "fields": [["a", sc], ["r", rl]], "decl": "class"})
+        mfields = [["a", sc], ["r", rl]]
+        if sw.get("dyn_struct") and rng.random() < 0.6:
+            # a dynamically sized struct that holds a reference (copied field by field, with offsets)
+            dname = f"ArrN{type_name(schema, sc)}"
+            dyn = [i for i, ty in enumerate(schema) if ty["k"] == "array" and ty["name"] == dname]
+            if not dyn and dname not in names:
+                names.add(dname)
+                schema.insert(len(schema), {"k": "array", "name": dname, "item": sc, "shape": [None], "order": [0], "decl": "sugar", "order_decl": None})
+                dyn = [len(schema) - 1]
+            if dyn:
+                mfields = [["d0", dyn[0]], ["a", sc], ["r", rl], ["d1", dyn[0]]] if rng.random() < 0.5 else [["a", sc], ["d0", dyn[0]], ["r", rl]]
+                if idx_str is not None and rng.random() < 0.5:
+                    mfields.insert(0, ["nm", idx_str])
+        schema.append({"k": "struct", "name": f"M{c}", "fields": mfields, "decl": "class"})
         mid = len(schema) - 1
         schema.append({"k": "ref", "to": mid})
         rm = len(schema) - 1
         schema.append({"k": "struct", "name": f"T{c}", "fields": [["x", sc], ["m", rm], ["l", rl]], "decl": "class"})
+        if rng.random() < 0.6:
+            # the reference-holding struct nested by value (so that it is reached as a view)
+            schema.append({"k": "struct", "name": f"W{c}", "fields": [["k", sc], ["n", mid], ["n2", mid]], "decl": "class"})
         if rng.random() < 0.5:
             shape = [rng.choice([None, 2, 3])]
             name = f"Arr{sugar_suffix(shape)}{type_name(schema, rm)}"
